@@ -738,21 +738,21 @@ macro_rules! set_claim_on {
                 $b.set_claim(clone_turn(TokenIdentifierClaim::from(s.as_str())));
                 Ok(())
             }
-            Claim::Exp(s) => match ExpirationClaim::try_from(s.as_str()) {
+            Claim::Exp(s) => match if ctor_turn() % 2 == 0 { ExpirationClaim::try_from(s.as_str()) } else { ExpirationClaim::try_from(s.clone()) } {
                 Ok(c) => {
                     $b.set_claim(clone_turn(c));
                     Ok(())
                 }
                 Err(e) => Err(e),
             },
-            Claim::Nbf(s) => match NotBeforeClaim::try_from(s.as_str()) {
+            Claim::Nbf(s) => match if ctor_turn() % 2 == 0 { NotBeforeClaim::try_from(s.as_str()) } else { NotBeforeClaim::try_from(s.clone()) } {
                 Ok(c) => {
                     $b.set_claim(clone_turn(c));
                     Ok(())
                 }
                 Err(e) => Err(e),
             },
-            Claim::Iat(s) => match IssuedAtClaim::try_from(s.as_str()) {
+            Claim::Iat(s) => match if ctor_turn() % 2 == 0 { IssuedAtClaim::try_from(s.as_str()) } else { IssuedAtClaim::try_from(s.clone()) } {
                 Ok(c) => {
                     $b.set_claim(clone_turn(c));
                     Ok(())
@@ -1033,11 +1033,21 @@ macro_rules! impl_proto {
                 guard(
                     || -> Result<String, PasetoError> {
                         let mut b = if ctor_turn() % 2 == 0 { Paseto::<$V, $Pu>::builder() } else { Paseto::<$V, $Pu>::default() };
-                        b.set_payload(Payload::from(msg));
+                        // the order of the three setters must not matter: payload first, last, or in the middle
+                        let order = ctor_turn() % 3;
+                        if order == 0 {
+                            b.set_payload(Payload::from(msg));
+                        }
                         if let Some(f) = footer {
                             b.set_footer(Footer::from(f));
                         }
+                        if order == 1 {
+                            b.set_payload(Payload::from(msg));
+                        }
                         ia_builder!($assert, b, ia);
+                        if order == 2 {
+                            b.set_payload(Payload::from(msg));
+                        }
                         // the core builder is Clone + Copy: every third one is used through an explicit clone()
                         let mut b = clone_turn(b);
                         seal_core!($kind, $V, b, key, nonce)
